@@ -212,6 +212,19 @@ def run(chk: Check) -> None:
         meta[tr["id"].split("#")[0]] = {"kind": "hashseed", "family": fam, "seed": opt["hashseed"],
                                          "order_head": [r["codemod"] for r in st["report"]["results"]][:3]}
 
+    # ---- G: the worker bound for EVERY number of files and workers up to 12 (not only the instance TLC explores):
+    # inductive invariant of the index abstraction PoolAbs.tla, discharged by Apalache
+    from .. import apalache
+
+    if apalache.available():
+        obs = apalache.inductive("PoolAbs", cinit="ConstInit", init="Init", ind_init="IndInit", ind_inv="IndInv", goal="WorkerBound")
+        chk.coverage["apalache_obligations"] = [{"obligation": o["obligation"], "ok": o["ok"], "wall_s": o["wall_s"]} for o in obs]
+        if not all(o["ok"] for o in obs):
+            bad = next(o for o in obs if not o["ok"])
+            raise tlc.TlcFailure(f"PoolAbs.tla: obligation `{bad['obligation']}` not discharged by Apalache: {bad['tail'][-300:]}")
+    else:
+        chk.notes["apalache"] = "apalache-mc not on PATH: the inductive check of PoolAbs.tla was skipped"
+
     verdicts, stats = tracecheck.validate(traces)
     for s in stats:
         chk.add_tlc(s)
